@@ -433,6 +433,7 @@ func runWorker(bin, id, tier string, seed uint64, from, to, step int, budget tim
 		}
 		inflight := -1
 		inflightSub := 0
+		recycleFrom := -1
 		done := false
 		killedByWatchdog := false
 		sc := bufio.NewScanner(stdout)
@@ -494,12 +495,20 @@ func runWorker(bin, id, tier string, seed uint64, from, to, step int, budget tim
 				a.add(&r, tier, keepDigests)
 			case "done":
 				done = true
+			case "recycle":
+				// the worker hands over to a fresh process (memory mark reached)
+				recycleFrom = r.Run
 			}
 		}
 		werr := cmd.Wait()
 		close(watch)
 		if done {
 			return
+		}
+		if recycleFrom >= 0 && inflight < 0 {
+			from, subFrom = recycleFrom, 0
+
+			continue
 		}
 		if inflight < 0 {
 			a.mu.Lock()
